@@ -552,7 +552,9 @@ func (r *runner) strayWAL(kind string) bool {
 	if !r.guarded("stray-wal", func() { err = r.b.StrayWALWrite(kind) }) {
 		return false
 	}
-	if err == nil {
+	if err == nil && kind == "held-body" {
+		r.viol("C03/wal-rewrite-below-captured-offset-accepted", "the rewrite of a frame body below the captured position was accepted")
+	} else if err == nil {
 		r.viol("C11/wal-write-without-lock-accepted/"+kind, "a %s write to the WAL by a connection that does not hold the write lock was accepted", kind)
 	}
 	return r.afterOp("stray-wal-"+kind, before, r.img, false, false, false, nil, "")
